@@ -115,6 +115,8 @@ model::Profile profile_for_write(bool for_c01, int format) {
     p.order = static_cast<int>(choose(S_WORK, 3));
     p.way_locations = choose(S_WORK, 5) == 0;
     p.nasty_strings = choose(S_WORK, 4) != 0;
+    p.wild_locations = for_c01 && choose(S_WORK, 2) != 0;
+    p.invalid_coordinates = format == 3;
     return p;
 }
 
@@ -405,6 +407,110 @@ void run_c08() {
     if (fired) { sim::probe("hard fault fired"); }
 }
 
+
+// ------------------------------------------------------------------------------------------------
+// C08, exhaustive part: for one small workload the first write reaching byte offset o fails, for EVERY o of the
+// would-be output (one errno / partial / transient variant per run), plus fsync and every close. Each point runs
+// the full Writer under a perturbed schedule.
+
+void run_c08_enum() {
+    simfs::reset();
+    sim::clear_values();
+    const int fmt = static_cast<int>(choose(S_WORK, 4));
+    model::Profile pr = profile_for_write(false, fmt);
+    pr.max_objects = 6;
+    pr.max_tags = 2;
+    pr.max_refs = 4;
+    pr.nasty_strings = choose(S_WORK, 3) == 0;
+    const model::Data d = model::gen_data(pr);
+    const WritePlan p = gen_plan(d, false, fmt);
+    const std::string path = OUT_PREFIX + p.suffix;
+    const std::string kind = format_of(p.suffix) + (comp_of(p.suffix) == "none" ? "" : "." + comp_of(p.suffix));
+    WriteResult ref;
+    {
+        sim::RunConfig cfg;
+        cfg.preemptive = false;
+        sim::clear_env();
+        sim::begin_run(cfg);
+        {
+            sim::QuietScope quiet;
+            ref = write_all(d, p, 1);
+        }
+        sim::end_run();
+    }
+    if (ref.threw || ref.bytes.size() > 6000) {
+        sim::probe(ref.threw ? "reference write rejected the data" : "workload too large for the enumeration");
+        sim::set_sample("{" + plan_json(d, p) + ",\"note\":\"skipped\"}");
+        return;
+    }
+    static const int errs[] = {ENOSPC, EFBIG, EIO};
+    const int err = errs[choose(S_FAULT, 3)];
+    const bool partial = choose(S_FAULT, 2) != 0;
+    const bool sticky = choose(S_FAULT, 3) != 0;
+    config_writer_queues();
+    const int pool_threads = 1 + static_cast<int>(choose(S_CONF, 4));
+    simfs::Soft soft;
+    soft.short_write_one_in = choose(sim::S_IO, 2) ? 4 : 0;
+    uint64_t points = 0, fired_points = 0;
+    auto one_point = [&](const simfs::Fault& fault, const std::string& what) {
+        sim::RunConfig cfg;
+        sim::begin_run(cfg);
+        simfs::set_soft(soft);
+        simfs::add_fault(fault);
+        const WriteResult run = write_all(d, p, pool_threads);
+        uint64_t fired = 0;
+        for (const auto& f : simfs::faults()) { fired += f.fired; }
+        sim::end_run();
+        simfs::reset();
+        ++points;
+        if (fired) { ++fired_points; }
+        if (run.threads_left != 0) { sim::report("oracle", "C08.leak/thread/" + kind, "threads left after the Writer was destroyed (" + what + ")"); }
+        if (run.nonstd) { sim::report("oracle", "C08.exception/" + kind + "/non-std-exception", what); }
+        if (!run.refuses_after_error) { sim::report("oracle", "C08.after-error/" + kind + "/accepts-data", what); }
+        if (fired > 0 && !run.threw) {
+            sim::report("oracle", "C08.lost-error/" + kind + "/" + (fault.kind == simfs::Fault::WRITE_ERR_AT ? (partial ? "write-error-after-partial-write" : "write-error") : (fault.kind == simfs::Fault::FSYNC_ERR ? "fsync-error" : "close-error")),
+                        what + " was returned to the library but no call threw; close() returned " + std::to_string(run.close_value) + ", file has " + std::to_string(run.size_on_disk) + " of " + std::to_string(ref.bytes.size()) + " bytes");
+        }
+        if (!run.threw) {
+            if (run.close_value != run.size_on_disk) { sim::report("oracle", "C08.size/" + kind, "close() returned " + std::to_string(run.close_value) + ", file has " + std::to_string(run.size_on_disk) + " (" + what + ")"); }
+            if (fired == 0 && run.bytes != ref.bytes) { sim::report("oracle", "C08.complete/" + kind + "/file-differs-from-reference", "no fault fired (" + what + ") but the file differs from the reference write"); }
+        } else if (fired == 0) {
+            sim::report("oracle", "C08.soft/" + kind + "/" + exc_class_name(run.exc_type), "no hard fault fired (" + what + ") but " + run.where + " threw " + run.exc_what);
+        }
+    };
+    for (size_t o = 0; o < ref.bytes.size(); ++o) {
+        simfs::Fault f;
+        f.kind = simfs::Fault::WRITE_ERR_AT;
+        f.path = path;
+        f.n = o;
+        f.err = err;
+        f.partial = partial;
+        f.sticky = sticky;
+        one_point(f, "write reaching offset " + std::to_string(o) + " of " + std::to_string(ref.bytes.size()) + " fails, errno " + std::to_string(err));
+    }
+    if (p.fsync) {
+        simfs::Fault f;
+        f.kind = simfs::Fault::FSYNC_ERR;
+        f.path = path;
+        f.err = EIO;
+        one_point(f, "fsync fails");
+    }
+    for (uint64_t n = 0; n < 2; ++n) {
+        simfs::Fault f;
+        f.kind = simfs::Fault::CLOSE_ERR_NTH;
+        f.path = path;
+        f.n = n;
+        f.err = EIO;
+        one_point(f, "close #" + std::to_string(n) + " fails");
+    }
+    sim::clear_env();
+    sim::probe("enumerated fault points", points);
+    sim::probe("hard fault fired", fired_points);
+    sim::set_sample("{" + plan_json(d, p) + ",\"reference_bytes\":" + std::to_string(ref.bytes.size()) + ",\"fault_points\":" + std::to_string(points) + ",\"errno\":" + std::to_string(err) + ",\"partial\":" + (partial ? "true" : "false") + ",\"transient\":" + (sticky ? "false" : "true") + ",\"pool\":" + std::to_string(pool_threads) + "}");
+    sim::set_field("exhaustive_subspace", "\"mode c08enum: for each small workload (<= 6000 output bytes) every byte offset of the would-be output as the failing write position, plus fsync and each close, one errno/partial/transient variant and one perturbed schedule per point\"");
+    sim::set_nontrivial(true);
+}
+
 } // namespace
 
 #include "writer_roundtrip.inc"
@@ -412,6 +518,7 @@ void run_c08() {
 int main(int argc, char** argv) {
     return sim::worker_main(argc, argv, [](const sim::RunInfo& info) {
         if (info.mode == "c08") { run_c08(); }
+        else if (info.mode == "c08enum") { run_c08_enum(); }
         else if (info.mode == "c01") { run_c01(); }
         else { sim::report("harness-error", "harness/unknown-mode", info.mode); }
     });
